@@ -2,11 +2,13 @@
     C13 model of the library function it calls, [weighted_sample_quantile] ([Quantile.wsq], over [Q]).
 
     [quantile_is_wsq]: on the same numbers (values, level and weights injected with [this : Qc -> Q])
-    both models return the same result, [None] in the same cases, PROVIDED the weights have the
-    length of the sample and do not sum to zero (or alpha = 0); without weights: always.
-    The two models genuinely differ outside this domain ([quantile_wsq_zero_sum_differs],
-    [quantile_wsq_mismatch_differs]).  Then the C13 theorems (defining inequalities, scale
-    invariance) are transferred to [Results.quantile] / [quantiles_of] as corollaries.            *)
+    both models return the same result, [None] in the same cases, for ALL inputs: [Results.quantile]
+    performs the checks of the Python code in the order of the Python code (alpha = 0 first, without
+    reading the weights; then the lengths; then the zero weight sum), as [Quantile.wsq_idx] does.
+    The inputs on which the former definition ([Results.quantile_old]) differed from the C13 model
+    are kept as regression examples ([quantile_wsq_zero_sum_agree], [quantile_wsq_mismatch_agree]).
+    Then the C13 theorems (defining inequalities, scale invariance) are transferred to
+    [Results.quantile] / [quantiles_of] as corollaries.                                          *)
 From Coq Require Import String.
 From Coq Require Import ZArith QArith Qcanon Qabs Bool Arith Lia Lqa List Permutation Sorted.
 From Elfi Require Import Num.Results Proofs.C16_Results.
@@ -136,29 +138,44 @@ Qed.
 
 (** [wq] : any rationals equal ([==]) to the C16 weights, e.g. [map this w] *)
 Theorem quantile_wsq_gen (x : list Qc) (alpha : Qc) (w : list Qc) (wq : list Q) :
-  wrep w wq -> length w = length x -> (sumq w <> 0%Qc \/ alpha = 0%Qc) ->
+  wrep w wq ->
   option_map this (quantile x alpha (Some w)) = wsq (map this x) (this alpha) (Some wq).
 Proof.
-  intros Hr Hl Hs. unfold quantile, wsq, wsq_idx.
-  rewrite Hl, Nat.eqb_refl. cbn [negb]. cbv iota.
+  intros Hr. unfold quantile, wsq, wsq_idx.
   rewrite qeqb_this. change (this 0%Qc) with 0.
-  rewrite <- (argsort_isort x w Hl).
   destruct (Qeq_bool (this alpha) 0) eqn:Ea.
-  - destruct (argsort (map this x)) as [|i l]; simpl; [reflexivity|]. now rewrite nth_this.
-  - assert (Hlq : length wq = length (map this x)) by (rewrite map_length, <- Hl; now apply wrep_length).
-    rewrite Hlq, Nat.eqb_refl. cbn [negb]. cbv iota.
-    assert (Hz : Qeq_bool (qsum wq) 0 = false).
-    { destruct Hs as [Hs|Hs]; [|subst alpha; discriminate Ea].
-      apply not_true_iff_false. intro H. apply Qeq_bool_iff in H. apply Hs, this_inj.
-      rewrite (wrep_sum w wq Hr). exact H. }
-    rewrite Hz. apply find_q_scan; [|reflexivity].
-    apply Forall2_map_same. intros i Hi. unfold rrel, row. split; cbn [fst snd]; [apply nth_this|].
-    assert (Hi' : (i < length wq)%nat).
-    { rewrite Hlq. eapply sorting_perm_lt; [apply argsort_sorting | exact Hi]. }
-    set (h := fun v => Qred (v / qsum wq)).
-    rewrite (nth_indep (map h wq) 0 (h 0)) by (now rewrite map_length).
-    rewrite map_nth. unfold h. rewrite Qred_correct, this_div, (wrep_sum w wq Hr), (wrep_nth w wq Hr).
-    reflexivity.
+  - (* alpha = 0: the minimum, the weights are not read *)
+    rewrite <- (argsort_isort x x eq_refl).
+    destruct (argsort (map this x)) as [|i l]; simpl; [reflexivity|]. now rewrite nth_this.
+  - rewrite map_length, (wrep_length w wq Hr).
+    destruct (length w =? length x)%nat eqn:El; cbn [negb]; cbv iota; [|reflexivity].
+    apply Nat.eqb_eq in El.
+    rewrite qeqb_this. change (this 0%Qc) with 0. rewrite (wrep_sum w wq Hr).
+    destruct (Qeq_bool (qsum wq) 0) eqn:Hz; cbn [andb]; cbv iota.
+    + (* zero sum: a hit only on a one-element sample *)
+      pose proof (sorting_perm_length _ _ (argsort_sorting (map this x))) as Hlen.
+      rewrite map_length in Hlen.
+      destruct x as [|a [|a' x]].
+      * destruct (argsort (map this [])) as [|? ?]; [reflexivity | discriminate Hlen].
+      * destruct w as [|b [|? ?]]; try discriminate El.
+        cbn [length Nat.eqb negb combine isort fold_right insert map cumsum_from snd fst].
+        cbv iota. change (force_last [(0 + b / sumq [b])%Qc]) with [1%Qc].
+        cbn [find_q]. unfold qltb, qleb, Qltb. change (this 1%Qc) with 1. change (this 0%Qc) with 0.
+        change (argsort (map this [a])) with [0%nat]. cbn [nth map].
+        destruct (negb (Qle_bool (this alpha) 0) && Qle_bool (this alpha) 1); reflexivity.
+      * cbn [length Nat.eqb negb]. cbv iota.
+        destruct (argsort (map this (a :: a' :: x))) as [|i [|j l]]; try discriminate Hlen; reflexivity.
+    + (* the scan *)
+      rewrite <- (argsort_isort x w El).
+      assert (Hlq : length wq = length (map this x)) by (rewrite map_length, <- El; now apply wrep_length).
+      apply find_q_scan; [|reflexivity].
+      apply Forall2_map_same. intros i Hi. unfold rrel, row. split; cbn [fst snd]; [apply nth_this|].
+      assert (Hi' : (i < length wq)%nat).
+      { rewrite Hlq. eapply sorting_perm_lt; [apply argsort_sorting | exact Hi]. }
+      set (h := fun v => Qred (v / qsum wq)).
+      rewrite (nth_indep (map h wq) 0 (h 0)) by (now rewrite map_length).
+      rewrite map_nth. unfold h. rewrite Qred_correct, this_div, (wrep_sum w wq Hr), (wrep_nth w wq Hr).
+      reflexivity.
 Qed.
 
 (** [weights=None] on both sides: unit weights *)
@@ -171,63 +188,89 @@ Proof. unfold wsq. apply wsq_idx_none, sorting_perm_length, argsort_sorting. Qed
 Lemma wrep_ones (x : list Qc) : wrep (repeat 1%Qc (length x)) (ones (map this x)).
 Proof. induction x; simpl; constructor; [reflexivity | assumption]. Qed.
 
-(** the domain on which the two models are proved equal *)
+(** the two models are the same function: no hypothesis on the sample, the level or the weights *)
+Theorem quantile_is_wsq (x : list Qc) (alpha : Qc) (w : option (list Qc)) :
+  option_map this (quantile x alpha w) = wsq (map this x) (this alpha) (option_map (map this) w).
+Proof.
+  destruct w as [w|]; simpl.
+  - apply quantile_wsq_gen, wrep_this.
+  - rewrite quantile_none, wsq_none. apply quantile_wsq_gen, wrep_ones.
+Qed.
+
+(** the domain on which the former definition [quantile_old] agreed with the C13 model (the
+    hypothesis of this theorem before [quantile] was aligned); see
+    [C16_Results.quantile_unchanged_on_wf] / [quantile_changed_only_off_wf] *)
 Definition link_dom (x : list Qc) (alpha : Qc) (w : option (list Qc)) : Prop :=
   match w with
   | Some w => length w = length x /\ (sumq w <> 0%Qc \/ alpha = 0%Qc)
   | None => True
   end.
 
-Theorem quantile_is_wsq (x : list Qc) (alpha : Qc) (w : option (list Qc)) :
-  link_dom x alpha w ->
-  option_map this (quantile x alpha w) = wsq (map this x) (this alpha) (option_map (map this) w).
-Proof.
-  destruct w as [w|]; simpl.
-  - intros [Hl Hs]. apply quantile_wsq_gen; auto using wrep_this.
-  - intros _. rewrite quantile_none, wsq_none. destruct x as [|a x].
-    + unfold quantile, wsq, wsq_idx. simpl. rewrite qeqb_this.
-      change (this 0%Qc) with 0. destruct (Qeq_bool (this alpha) 0); reflexivity.
-    + apply quantile_wsq_gen; [apply wrep_ones | apply repeat_length|].
-      left. rewrite sumq_ones. apply qn_nonzero. discriminate.
-Qed.
-
-(** outside [link_dom], (a): lengths differ and alpha <> 0: both fail *)
+(** lengths differ and alpha <> 0: both fail *)
 Lemma quantile_wsq_mismatch x alpha w :
   length w <> length x -> alpha <> 0%Qc ->
   quantile x alpha (Some w) = None /\ wsq (map this x) (this alpha) (Some (map this w)) = None.
 Proof.
-  intros Hl Ha. unfold quantile, wsq, wsq_idx. rewrite !map_length.
-  apply Nat.eqb_neq in Hl. rewrite Hl. simpl. split; [reflexivity|].
-  assert (E : Qeq_bool (this alpha) 0 = false).
-  { apply not_true_iff_false. intro H. apply Qeq_bool_iff in H. apply Ha, this_inj. exact H. }
-  now rewrite E.
+  intros Hl Ha.
+  assert (E : quantile x alpha (Some w) = None).
+  { unfold quantile. unfold qeqb, Qc_eq_bool. destruct (Qc_eq_dec alpha 0%Qc); [contradiction|].
+    apply Nat.eqb_neq in Hl. now rewrite Hl. }
+  split; [exact E|]. pose proof (quantile_is_wsq x alpha (Some w)) as L. rewrite E in L. symmetry. exact L.
 Qed.
 
-(** outside [link_dom], (b) and (c): the models DIFFER.
+(** lengths differ and alpha = 0: both return the minimum (of a non-empty sample) *)
+Lemma quantile_zero_ignores_weights x w w' : quantile x 0%Qc w = quantile x 0%Qc w'.
+Proof. reflexivity. Qed.
+
+(** zero-sum weights on two or more values, alpha <> 0: both fail *)
+Lemma quantile_wsq_zero_sum x alpha w :
+  sumq w = 0%Qc -> length x <> 1%nat -> alpha <> 0%Qc ->
+  quantile x alpha (Some w) = None /\ wsq (map this x) (this alpha) (Some (map this w)) = None.
+Proof.
+  intros Hz H1 Ha.
+  assert (E : quantile x alpha (Some w) = None).
+  { unfold quantile. unfold qeqb at 1, Qc_eq_bool. destruct (Qc_eq_dec alpha 0%Qc); [contradiction|].
+    destruct (negb (length w =? length x)%nat); [reflexivity|].
+    rewrite Hz. apply Nat.eqb_neq in H1. rewrite H1. reflexivity. }
+  split; [exact E|]. pose proof (quantile_is_wsq x alpha (Some w)) as L. rewrite E in L. symmetry. exact L.
+Qed.
+
+(** Regression examples: the inputs on which the former definition differed from C13.
     (b) weights that sum to zero, two or more samples, 0 < alpha <= 1: in C13 (as in numpy) every
-        normalised weight is nan and no row is selected (IndexError); C16 divides in [Qc], where
-        [w / 0 = 0], and returns the largest value.
+        normalised weight is nan and no row is selected (IndexError).  [quantile_old] divided in
+        [Qc], where [w / 0 = 0], and returned the largest value; [quantile] fails.
     (c) weights of the wrong length and alpha = 0: C13 (as the Python code) returns the smallest
-        value without looking at the weights; C16 checks the length first and fails. *)
+        value without looking at the weights; [quantile_old] checked the length first and failed;
+        [quantile] returns the smallest value. *)
 Definition qz (z : Z) : Qc := Q2Qc (inject_Z z).
 
-Example quantile_wsq_zero_sum_differs :
+Example quantile_wsq_zero_sum_agree :
   let x := [qz 1; qz 2] in let w := [qz 0; qz 0] in let alpha := Q2Qc (1 # 2) in
-  option_map this (quantile x alpha (Some w)) = Some 2
-  /\ wsq (map this x) (this alpha) (Some (map this w)) = None.
-Proof. vm_compute. split; reflexivity. Qed.
-
-Example quantile_wsq_zero_sum_signed_differs :
-  let x := [qz 1; qz 2; qz 3] in let w := [qz 1; qz (-2); qz 1] in let alpha := qz 1 in
-  option_map this (quantile x alpha (Some w)) = Some 3
-  /\ wsq (map this x) (this alpha) (Some (map this w)) = None.
-Proof. vm_compute. split; reflexivity. Qed.
-
-Example quantile_wsq_mismatch_differs :
-  let x := [qz 2; qz 1] in let w := [qz 1] in let alpha := qz 0 in
   option_map this (quantile x alpha (Some w)) = None
-  /\ wsq (map this x) (this alpha) (Some (map this w)) = Some 1.
+  /\ wsq (map this x) (this alpha) (Some (map this w)) = None
+  /\ option_map this (quantile_old x alpha (Some w)) = Some 2.
+Proof. vm_compute. repeat split; reflexivity. Qed.
+
+Example quantile_wsq_zero_sum_signed_agree :
+  let x := [qz 1; qz 2; qz 3] in let w := [qz 1; qz (-2); qz 1] in let alpha := qz 1 in
+  option_map this (quantile x alpha (Some w)) = None
+  /\ wsq (map this x) (this alpha) (Some (map this w)) = None
+  /\ option_map this (quantile_old x alpha (Some w)) = Some 3.
+Proof. vm_compute. repeat split; reflexivity. Qed.
+
+(** one value, zero weight: [cum = [0, 1.0]], the value is returned by both *)
+Example quantile_wsq_zero_sum_single_agree :
+  let x := [qz 5] in let w := [qz 0] in let alpha := Q2Qc (1 # 2) in
+  option_map this (quantile x alpha (Some w)) = Some 5
+  /\ wsq (map this x) (this alpha) (Some (map this w)) = Some 5.
 Proof. vm_compute. split; reflexivity. Qed.
+
+Example quantile_wsq_mismatch_agree :
+  let x := [qz 2; qz 1] in let w := [qz 1] in let alpha := qz 0 in
+  option_map this (quantile x alpha (Some w)) = Some 1
+  /\ wsq (map this x) (this alpha) (Some (map this w)) = Some 1
+  /\ option_map this (quantile_old x alpha (Some w)) = None.
+Proof. vm_compute. repeat split; reflexivity. Qed.
 
 (** * C13 theorems transferred to the C16 model *)
 
@@ -282,7 +325,7 @@ Section WfC.
     intros H0 H1.
     destruct (wsq_idx_char (argsort (map this x)) (map this x) (map this w) (this alpha)
                 (argsort_sorting _) Hl' Hw' Hs' H0 H1) as (q' & E & Hin & (A & B & C & D)).
-    pose proof (quantile_is_wsq x alpha (Some w) (conj Hl (or_introl sumq_pos_nonzero))) as L.
+    pose proof (quantile_is_wsq x alpha (Some w)) as L.
     simpl in L. unfold wsq in L. rewrite E in L.
     destruct (quantile x alpha (Some w)) as [q|]; [|discriminate]. simpl in L. injection L as L. subst q'.
     rewrite (wtot_combine _ _ Hl') in A, B, C.
@@ -305,12 +348,12 @@ Section WfC.
   Proof.
     intros Hc H0 H1.
     assert (Hcz : c <> 0%Qc) by (intro E; rewrite E in Hc; exact (Qlt_irrefl _ Hc)).
-    pose proof (quantile_wsq_gen x alpha w (map this w) (wrep_this w) Hl (or_introl sumq_pos_nonzero)) as L1.
+    pose proof (quantile_wsq_gen x alpha w (map this w) (wrep_this w)) as L1.
     assert (Hr : wrep (map (Qcmult c) w) (map (Qmult (this c)) (map this w))).
     { clear. induction w; simpl; constructor; [apply this_mult | assumption]. }
     assert (Hz : sumq (map (Qcmult c) w) <> 0%Qc).
     { rewrite sumq_scale. intro E. apply Qcmult_integral in E. destruct E; [contradiction|]. now apply sumq_pos_nonzero. }
-    pose proof (quantile_wsq_gen x alpha _ _ Hr (eq_trans (map_length _ _) Hl) (or_introl Hz)) as L2.
+    pose proof (quantile_wsq_gen x alpha _ _ Hr) as L2.
     unfold wsq in L1, L2.
     assert (Hl2 : length (map (Qmult (this c)) (map this w)) = length (map this x)) by now rewrite map_length.
     assert (Hw2 : Forall (Qle 0) (map (Qmult (this c)) (map this w))).
@@ -332,15 +375,22 @@ End WfC.
 
 (** * ... and to the reported quantiles of a [Sample] ([quantiles_of]) *)
 
-Lemma quantile_some_length x alpha w q : quantile x alpha (Some w) = Some q -> length w = length x.
+(** for alpha = 0 the weights are not read: a result says nothing about their length then *)
+Lemma quantile_some_length x alpha w q : alpha <> 0%Qc -> quantile x alpha (Some w) = Some q -> length w = length x.
 Proof.
-  unfold quantile. destruct (length w =? length x)%nat eqn:E; [|discriminate].
+  intro Ha. unfold quantile. unfold qeqb at 1, Qc_eq_bool. destruct (Qc_eq_dec alpha 0%Qc); [contradiction|].
+  destruct (length w =? length x)%nat eqn:E; [|discriminate].
   intros _. now apply Nat.eqb_eq.
 Qed.
 
-(** every reported quantile is the weighted sample quantile, in the C13 sense, of its stored column *)
+(** every reported quantile is the weighted sample quantile, in the C13 sense, of its stored column.
+    The hypothesis for alpha = 0 is new: under the former definition ([quantile_old]) a result for
+    alpha = 0 implied that every column had the length of the weights, because the length was
+    checked first; the Python code (and now [quantile]) does not read the weights when alpha = 0,
+    so [length w = length col] is no longer a consequence of success there and is assumed. *)
 Theorem quantiles_of_inequalities (s : dict) (w : list Qc) (alpha : Qc) (qs : list (string * Qc)) :
   Forall (fun v => (0 <= v)%Qc) w -> (0 < sumq w)%Qc -> (0 <= alpha)%Qc -> (alpha <= 1)%Qc ->
+  (alpha = 0%Qc -> Forall (fun kv => length (snd kv) = length w) s) ->
   quantiles_of s (Some w) alpha = Some qs ->
   length qs = length s
   /\ forall j k v, nth_error qs j = Some (k, v) ->
@@ -350,13 +400,17 @@ Theorem quantiles_of_inequalities (s : dict) (w : list Qc) (alpha : Qc) (qs : li
                    /\ ((0 < alpha)%Qc -> (Results.wlt v col w / sumq w < alpha)%Qc)
                    /\ (alpha = 0%Qc -> forall y, In y col -> (v <= y)%Qc).
 Proof.
-  intros Hw Hs H0 H1 H. unfold quantiles_of in H. apply opt_all_nth in H as [Hl Hn].
+  intros Hw Hs H0 H1 Hz H. unfold quantiles_of in H. apply opt_all_nth in H as [Hl Hn].
   rewrite map_length in Hl. split; [exact Hl|].
   intros j k v Hj. apply Hn in Hj. rewrite nth_error_map in Hj.
-  destruct (nth_error s j) as [[k' col]|]; [|discriminate]. simpl in Hj.
+  destruct (nth_error s j) as [[k' col]|] eqn:Ej; [|discriminate]. simpl in Hj.
   destruct (quantile col alpha (Some w)) as [a|] eqn:Ea; [|discriminate]. simpl in Hj.
   inversion Hj; subst k' a. clear Hj.
-  pose proof (quantile_some_length _ _ _ _ Ea) as Hlen.
+  assert (Hlen : length w = length col).
+  { destruct (Qc_eq_dec alpha 0%Qc) as [E0|E0].
+    - specialize (Hz E0). rewrite Forall_forall in Hz. symmetry.
+      exact (Hz (k, col) (nth_error_In _ _ Ej)).
+    - exact (quantile_some_length _ _ _ _ E0 Ea). }
   destruct (quantile_inequalities col w Hlen Hw Hs alpha H0 H1) as (q & Eq & Hin & A & B & C & D).
   rewrite Ea in Eq. injection Eq as <-.
   exists col. repeat split; auto.
@@ -376,7 +430,7 @@ Qed.
 Theorem quantiles_of_none_is_wsq (s : dict) (alpha : Qc) :
   map (fun kv => option_map this (quantile (snd kv) alpha None)) s
   = map (fun kv => wsq (map this (snd kv)) (this alpha) None) s.
-Proof. apply map_ext. intro kv. exact (quantile_is_wsq (snd kv) alpha None I). Qed.
+Proof. apply map_ext. intro kv. exact (quantile_is_wsq (snd kv) alpha None). Qed.
 
 (** * the weighted mean
     Num/Quantile.v has no weighted-mean function of its own; the only weighted mean of the C13 model
